@@ -137,6 +137,8 @@ def run_property(prop, tier, repo=None, write_evidence=True, quiet=False, ctx=No
         ctx = Ctx(crates, tier, repo)
     else:
         crates = ctx.crates
+    from . import reviewed as _rv, sigkeys as _sk
+    _rv.bind(ctx.bin)
     reg = registry()
     if prop not in reg:
         print("plsa: no rules registered for %s" % prop)
@@ -144,7 +146,8 @@ def run_property(prop, tier, repo=None, write_evidence=True, quiet=False, ctx=No
     spec = reg[prop]
     results = []
     for rule_fn in spec["rules"]:
-        r = rule_fn(ctx)
+        # a rule shared by several properties is evaluated once per analysed tree
+        r = ctx.memo(("rule", id(rule_fn)), lambda: rule_fn(ctx))
         if isinstance(r, list):
             results.extend(r)
         else:
@@ -174,6 +177,12 @@ def run_property(prop, tier, repo=None, write_evidence=True, quiet=False, ctx=No
             hit = [a for a in al.get(key, []) if a in kn and a not in primary]
             if hit:
                 known_hits.append((hit[0], (kn[hit[0]] or msg) + " [now at %s]" % key.split("|")[1].split("::")[-1]))
+                continue
+            # renamed function: the recorded finding is matched through its committed signature alias, provided the function
+            # it names is gone from the tree and no construct answers to the recorded key itself
+            e = _sk.alias_match(ctx.bin, key, [k2 for k2 in kn if k2 not in primary], _rv._BOUND["table"])
+            if e is not None:
+                known_hits.append((e, (kn[e] or msg) + " [function renamed: now %s]" % key.split("|")[1].split("::")[-1]))
             else:
                 new_viol.append((r.rule, key, msg))
     wall = round(time.time() - t0, 2)
